@@ -534,6 +534,16 @@ def run_c08(ctx):
                 model = []
             if model != m['quads']:
                 mismatches.append({'input': entry, 'go_quads': m['quads'], 'model': model})
+                # search for a failing input with the MODEL's parallelograms as the reference (the K1 theorems say
+                # they are the swept quadrilaterals): a point far from their edges where the result disagrees with their union
+                if model and m.get('result') is not None and sum(1 for v in viol if v['kind'] == 'minkowski-model-quads') < 3 and len(mismatches) <= 12:
+                    mq = [q for q in model if q]
+                    conf = fw.confirm_region([m['result'], mq], geom.closed_edges(mq), 4, (lambda w: (w[0] % 2 != 0) == (w[1] != 0)), None)
+                    if conf:
+                        viol.append({'key': key, 'kind': 'minkowski-model-quads',
+                                     'text': '%s closed=%s: at point (%s, %s), > 2 units from every swept-parallelogram edge, the result (winding %d) disagrees with the union of the parallelograms of the Coq model (winding %d)' % (
+                                         'MinkowskiSum64' if entry['sum'] else 'MinkowskiDiff64', entry['closed'], conf['point'][0], conf['point'][1], conf['windings'][0], conf['windings'][1]),
+                                     'detail': {'corpus_entry': entry, 'result': m['result'], 'model_quads': mq, 'go_quads': m['quads'], 'confirmed': conf}})
             if len(ctx['samples']) < 3 and m['quads']:
                 ctx['samples'].append({'input': entry, 'quads': m['quads'][:4], 'result': m['result']})
             continue
